@@ -145,26 +145,26 @@ func build(h string, race bool) (string, error) {
 // ---------------------------------------------------------------------------
 
 type stage struct {
-	Name     string
-	Harness  string
-	Test     string // -test.run pattern
-	Mode     string // rapid | enum | race | fuzz
-	Quick    int    // cases (rapid: total checks over all shards; enum: ignored)
-	Thorough int
-	Steps    int // -rapid.steps (0 = default)
-	StepsT   int
-	Shards   int // 0 = auto (rapid: up to 16)
-	Race     bool
-	Env      []string
-	FuzzSecs int // thorough only
+	Name         string
+	Harness      string
+	Test         string // -test.run pattern
+	Mode         string // rapid | enum | race | fuzz
+	Quick        int    // cases (rapid: total checks over all shards; enum: ignored)
+	Thorough     int
+	Steps        int // -rapid.steps (0 = default)
+	StepsT       int
+	Shards       int // 0 = auto (rapid: up to 16)
+	Race         bool
+	Env          []string
+	FuzzSecs     int // thorough only
 	ThoroughOnly bool
 }
 
 type plan struct {
-	Level      string
-	Rule       string
-	Assume     []string
-	Stages     []stage
+	Level  string
+	Rule   string
+	Assume []string
+	Stages []stage
 }
 
 var plans = map[string]plan{}
@@ -291,19 +291,19 @@ func runCheck(id string, p plan, tier string, seed int64, scale float64, only st
 		samples = samples[:6]
 	}
 	cov := map[string]interface{}{
-		"evaluations":         merged.Evaluations,
-		"distinct_nontrivial": nontrivial,
-		"rule":                p.Rule,
-		"samples":             samples,
-		"classes":             merged.Classes,
-		"counters":            merged.Counters,
-		"stages":              stageInfo,
+		"evaluations":            merged.Evaluations,
+		"distinct_nontrivial":    nontrivial,
+		"rule":                   p.Rule,
+		"samples":                samples,
+		"classes":                merged.Classes,
+		"counters":               merged.Counters,
+		"stages":                 stageInfo,
 		"regress_cases_replayed": regressRun,
 		"regress_cases_failing":  regressFail,
-		"aborted_by_panic":    merged.Aborted,
-		"inconclusive_stages": inconclusive,
-		"known_findings_hit":  len(knownLines),
-		"exhaustive":          exhaustive && merged.Evaluations > 0,
+		"aborted_by_panic":       merged.Aborted,
+		"inconclusive_stages":    inconclusive,
+		"known_findings_hit":     len(knownLines),
+		"exhaustive":             exhaustive && merged.Evaluations > 0,
 	}
 	ev := map[string]interface{}{
 		"property_id": id,
